@@ -13,6 +13,7 @@ import time
 
 from harness import vlib
 from harness import c19lib as L
+from harness import c19sites as S
 
 THEOREMS = ["C19_trace_partial", "C19_trace_refuted", "C19_codec_union_refuted", "C19_mixin_once", "C19_context",
             "C19_union_context_refuted", "C19_de_trace_partial", "C19_de_post_once", "C19_codec_subclass_refuted",
@@ -22,6 +23,21 @@ THEOREMS = ["C19_trace_partial", "C19_trace_refuted", "C19_codec_union_refuted",
 # ---------------------------------------------------------------------------
 # generators
 # ---------------------------------------------------------------------------
+# the tie to the source: hook call sites read from builder.py (kernel K49) = the model's method bodies
+SITE_THEOREMS = ["C19_K49_to_dict_sites", "C19_K49_to_dict_is_model", "C19_K49_pack_mixin", "C19_K49_pack_codec",
+                 "C19_K49_trace_mixin", "C19_K49_trace_codec", "C19_K49_from_dict_sites", "C19_K49_from_dict_is_model",
+                 "C19_K49_unpack_dc", "C19_K49_from_dict_dispatcher", "C19_K49_de_trace", "C19_K49_declared_hook"]
+
+# keyword forwarding of the nested call = the translated get_pack_method_flags (C08's kernel K8)
+FLAG_THEOREMS = ["C19_K8_call_keywords", "C19_K8_context_forwarded", "C19_K8_model_keywords"]
+# the union packer's / unpacker's try-each = the method the translated loops of pack_union / UnionUnpackerBuilder._add_body
+# emit (C11's kernels K21, K19)
+UNION_THEOREMS = ["C19_K21_emit_tries", "C19_K21_pack_union_mixin", "C19_K21_pack_union_codec",
+                  "C19_K19_emit_union_dc", "C19_K19_unpack_union"]
+
+# the variants a discriminator tries, in order = iter_all_subclasses / _get_variant_names as translated (C12's kernel K12)
+DISC_THEOREMS = ["C19_K12_subclasses", "C19_K12_union_variants", "C19_K12_annotated_variants", "C19_K12_config_variants"]
+
 KINDS = ["dict", "dict", "json", "orjson", "msgpack", "yaml", "toml", "plain"]
 CODECS = ["basic", "json", "orjson", "msgpack", "yaml", "toml"]
 
@@ -617,7 +633,7 @@ class CaseTimeout(BaseException):
     """not an Exception: must pass through the `except Exception: pass` of generated try-each code"""
 
 
-CASE_TIMEOUT_S = 8
+CASE_TIMEOUT_S = 20     # wall clock; generous: the machine may be heavily loaded, a normal call takes milliseconds
 
 
 def _on_alarm(signum, frame):
@@ -698,7 +714,22 @@ def run(ctx: vlib.Ctx):
     ctx.trusted += [
         "Hooks.v pack/unpack: hand-written model of the generated to_dict/from_dict control flow restricted to hook events "
         "(checked against the real hook log on every run); Python attribute lookup/dynamic dispatch, keyword TypeError, "
-        "try/except, dict.get are modelled, not verified",
+        "try/except, dict.get are modelled, not verified.  The method bodies (which hook lines, their order, the context "
+        "keyword, self rebound to the pre hook's result, one final return wrapped in the post hook, a Config discriminator "
+        "replacing the whole from_dict) are NOT hand-modelled any more: kernel K49 re-reads them from "
+        "CodeBuilder._add_pack_method_lines / _add_unpack_method_lines / get_declared_hook on every run and C19_K49_* prove "
+        "that they are Hooks.body / Hooks.dbody",
+        "tools/kernels/k49_hook_sites.py: path-by-path symbolic execution of the emitting statements (fail closed on any "
+        "statement that mentions a hook, emits a line or returns outside the recognised forms); HookSites.run_ps/run_us: the "
+        "meaning of a site list (Python evaluation order of `return self.__post_serialize__({...})`, rebinding of self); the "
+        "field emission block, the kwargs-vs-literal decision (K8's) and the encoder are parameters.  K49 itself is compared "
+        "on every run with the sites parsed from every method text the library exec's for the generated classes",
+        "reused kernels of other properties: K8 (get_pack_method_flags: C19_K8_* - the keyword list of the nested call is "
+        "the (context?, other keywords) pair the model passes) K21 (pack_union loops: C19_K21_* - the emitted union "
+        "method is try_each over the distinct call expressions) and K19 (UnionUnpackerBuilder._add_body: C19_K19_* - for "
+        "dataclass members one try block per distinct member, = dtry) and K12 (iter_all_subclasses, _get_variant_names, the "
+        "class-level rebuild of the Discriminator: C19_K12_* - the variant lists of the model); the abstraction of a union member as "
+        "UnionModel.pmember / UnionEmit.mspec (class name, expression id, is-it-TypeMatchEligible, encoder) is C11's",
         "harness/c19lib.py: class-source generator, flattening of inherited fields/hooks/Config (independent re-statement "
         "of get_declared_hook), value/wire materialiser, event canonicaliser (uids), Coq term printer",
         "format libraries json/orjson/msgpack/yaml/tomli_w/tomllib only transport the dict (outputs are decoded and compared)",
@@ -707,8 +738,8 @@ def run(ctx: vlib.Ctx):
         "values are trees (no instance occurs twice); an instance has the declared class, one of the union's member classes, a "
         "variant of the discriminator, or (12% of plain positions) a subclass with the same keyword-adding options; a variant "
         "whose to_dict would not accept the keywords of the declared class (TypeError, a crash) is not generated",
-        "union members are dataclasses; each field name has one type per schema; hooks do not raise; a discriminator without a "
-        "field is generated only where the mixin has no format-specific method (the /repo defect reported in round 3)",
+        "union members are dataclasses; each field name has one type per schema; hooks do not raise (discriminators without a "
+        "field are generated for every mixin kind since /repo 233f7d4 repaired the inherited per-format method)",
         "deserialization: events of union members / discriminator variants that were tried and discarded concern no instance of "
         "the result and are not violations (property text: 'every instance that ends up in a deserialization result'); the "
         "model reproduces them exactly",
@@ -716,18 +747,29 @@ def run(ctx: vlib.Ctx):
         "Coq model (MRO-resolved method; known finding C19/format-method-subclass-dispatch): oracle only",
     ]
     # 1. theorems
-    br = ctx.theorems("props/C19_hooks.vo", THEOREMS)
+    br = S.theorems_robust(ctx, "props/C19_hooks.vo", THEOREMS)
+    S.theorems_robust(ctx, "props/C19_sites.vo", SITE_THEOREMS, kernels=["K49"])
+    S.theorems_robust(ctx, "props/C19_flags.vo", FLAG_THEOREMS, kernels=["K8"])
+    S.theorems_robust(ctx, "props/C19_union_emit.vo", UNION_THEOREMS, kernels=["K21", "K19"])
+    S.theorems_robust(ctx, "props/C19_disc_variants.vo", DISC_THEOREMS, kernels=["K12"])
     if thorough_tier(ctx) and br.ok:
         # second opinion: the standalone checker re-checks the compiled library and its whole cone
-        rc, out, secs = vlib.run(["timeout", "1500", "coqchk", "-o", "-silent", "-Q", "theories", "Verif", "-Q", "gen", "VerifGen",
-                                  "-Q", "props", "VerifProps", "VerifProps.C19_hooks"], cwd=vlib.COQ, timeout=1600)
+        for _attempt in range(3):
+            rc, out, secs = vlib.run(["timeout", "1500", "coqchk", "-o", "-silent", "-Q", "theories", "Verif", "-Q", "gen", "VerifGen",
+                                      "-Q", "props", "VerifProps", "VerifProps.C19_hooks", "VerifProps.C19_sites",
+                                      "VerifProps.C19_flags", "VerifProps.C19_union_emit", "VerifProps.C19_disc_variants"],
+                                     cwd=vlib.COQ, timeout=1600)
+            if rc == 0 or "rror" in out or "* Axioms" in out:
+                break     # a verdict of the checker; anything else = the process died (OOM killer / timeout): run it again
+            S.RETRIES.append(f"coqchk died without a verdict (rc={rc}, attempt {_attempt + 1})")
+            time.sleep(30)
         import re as _re
         m = _re.search(r"\* Axioms:\s*(.*?)\n\s*\n", out, _re.S)
         axioms = " ".join(m.group(1).split()) if m else "?"
         ok = rc == 0 and axioms == "<none>" and "type-in-type: <none>" in out and "unsafe (co)fixpoints: <none>" in out \
             and "positivity is assumed: <none>" in out
-        ctx.obligation("coqchk -o VerifProps.C19_hooks", ok, f"rc={rc} Axioms: {axioms} ({secs:.0f}s)")
-        ctx.trusted.append(f"coqchk -o VerifProps.C19_hooks: Axioms: {axioms}; no type-in-type, no unsafe fixpoints, no assumed positivity")
+        ctx.obligation("coqchk -o VerifProps.C19_{hooks,sites,flags,union_emit,disc_variants}", ok, f"rc={rc} Axioms: {axioms} ({secs:.0f}s)")
+        ctx.trusted.append(f"coqchk -o VerifProps.C19_hooks C19_sites C19_flags C19_union_emit C19_disc_variants: Axioms: {axioms}; no type-in-type, no unsafe fixpoints, no assumed positivity")
         if not ok:
             ctx.not_shown("coqchk VerifProps.C19_hooks", out[-1500:])
 
@@ -741,6 +783,9 @@ def run(ctx: vlib.Ctx):
     t_lib = 0.0
 
     timeouts = [0]
+    recorder = S.Recorder()      # every method text the CodeBuilder exec's for a class of a generated schema
+    recorder.install()
+    site_acc = S.Acc()
 
     def do_schema(si, schema, roots):
         nonlocal t_lib
@@ -753,6 +798,7 @@ def run(ctx: vlib.Ctx):
             ctx.notes.append(f"schema {si} not constructible: {type(e).__name__}: {e}"[:300])
             ctx.hist("schemas", "not-constructible")
             return
+        recorder.schemas[mod.__name__] = schema
         L.check_module_orders(mod, schema)
         envs.append(L.coq_env(schema))
         ei = len(envs) - 1
@@ -810,6 +856,10 @@ def run(ctx: vlib.Ctx):
                             L.subclass_positions(schema, root_ty, value, sp_)
                             ctx.hist("subclass_instances", ("with" if sp_ else "without") + " subclass instance at a parent-typed position")
                         ctx.hist("events_per_case", str(min(len(res["log"]) // 4 * 4, 40)))
+                        if verdict is None:
+                            # only log / ok / exc / result are needed later (correspondence); keep the process small
+                            res.pop("out", None)
+                            res.pop("obs", None)
                         (ser_cases if direction == "ser" else de_cases).append((case, res, verdict))
                         if verdict is not None:
                             what, sig = verdict
@@ -819,6 +869,7 @@ def run(ctx: vlib.Ctx):
                             rep["expected"] = what
                             ctx.fail(f"{direction} {entry}: {what}"[:600], rep, sig)
         finally:
+            site_acc.flush(recorder)     # parse this schema's method texts into (answers, sites) pairs, drop the texts
             L.unload_module(mod)
 
     si = 0
@@ -871,6 +922,38 @@ def run(ctx: vlib.Ctx):
         do_schema(si, schema, [(root_ty, gen_value_capped(rng, schema, root_ty, schema["toml_safe"])) for _ in range(2)])
         si += 1
 
+    recorder.uninstall()
+
+    # 2a. correspondence kernel K49 vs the generated code: the sites parsed from every method text the library exec'd
+    #     for the classes above == K49.pack_sites / unpack_sites on the answers the builder gets for that class
+    site_acc.flush(recorder)
+    pk_terms, uk_terms, site_wit, site_problems, n_methods = site_acc.result()
+    ctx.notes.append(f"K49 sites: {n_methods} generated methods parsed, {len(pk_terms)} distinct to_dict and "
+                     f"{len(uk_terms)} distinct from_dict (answers, sites) pairs")
+    ctx.hist("k49_sites", "generated methods parsed", n_methods)
+    if site_problems:
+        ctx.correspondence("c19_sites_parse", n_methods + len(site_problems), len(site_problems), json.dumps(site_problems[0])[:1500])
+        ctx.not_shown("correspondence c19_sites_parse",
+                      f"{len(site_problems)} generated methods are not of the shape K49 describes, first: {json.dumps(site_problems[0])[:1200]}")
+    for nm, terms, okf, cty in (("c19_sites_pack", pk_terms, S.PACK_OK, S.PACK_TYPE),
+                                ("c19_sites_unpack", uk_terms, S.UNPACK_OK, S.UNPACK_TYPE)):
+        if not terms:
+            ctx.correspondence(nm, 0, -1, "no generated method was recorded")
+            ctx.not_shown("correspondence " + nm, "no generated method was recorded (exec hook lost?)")
+            continue
+        sbad, slog = S.coq_bad_idx_j(nm, "Hooks HookSites", "From VerifGen Require Import K49.", "", terms, okf, cty,
+                                      needs=["theories/HookSites.vo", "gen/K49.vo"])
+        if sbad is None:
+            ctx.correspondence(nm, len(terms), -1, slog)
+            ctx.not_shown("correspondence " + nm, slog)
+        else:
+            detail = ""
+            if sbad:
+                detail = json.dumps({"case": terms[sbad[0]], "witness": site_wit.get(terms[sbad[0]])}, default=str)[:2500]
+            ctx.correspondence(nm, len(terms), len(sbad), detail)
+            if sbad:
+                ctx.not_shown("correspondence " + nm, f"{len(sbad)} (answers, sites) pairs differ from K49, first: {detail}")
+
     # 2. correspondence model vs implementation
     defs = "Local Open Scope nat_scope.\n" + "\n".join(f"Definition E{i} : env :=\n     {e}." for i, e in enumerate(envs)) + "\n"
 
@@ -885,7 +968,7 @@ def run(ctx: vlib.Ctx):
             if t is not None:
                 idx.append(i)
                 terms.append(t)
-        bad, log = vlib.coq_bad_idx(name, "Hooks", "", defs, terms, okf, ctype, shard=ctx.budget(400, 500),
+        bad, log = S.coq_bad_idx_j(name, "Hooks", "", defs, terms, okf, ctype, shard=ctx.budget(400, 500),
                                     needs=["theories/Hooks.vo"])
         if bad is None:
             ctx.correspondence(name, len(terms), -1, log)
@@ -945,6 +1028,8 @@ def run(ctx: vlib.Ctx):
     t_c1 = time.time()
     corr("c19_de", de_cases, render_de, "de_ok", "de_case")
     ctx.notes.append(f"generation+library {t_c0 - t_start:.1f}s, coq ser {t_c1 - t_c0:.1f}s, coq de {time.time() - t_c1:.1f}s")
+    for r in S.RETRIES:
+        ctx.notes.append("infrastructure retry: " + r)
 
     # the case files are large; nothing needs them after the evaluation
     import glob
